@@ -103,6 +103,34 @@ func checkC20(c *Case, s *Stats) error {
 	qs := queries(m.AllKeys, c.Win, c.Extra, false)
 	small := len(keys) < 1500
 
+	// ---- the built trie does not alias the caller's keys and values ----
+	// Byte-slice values (encode.Bytes hands the caller's slice to the builder) are
+	// overwritten in place, the key slice is overwritten element by element.
+	{
+		ob := obsOpt{typed: typedEnc(c), scans: scansOK(c), stat: true, str: small, marshal: true}
+		before := observe(st, qs, ob)
+		touched := false
+		if vals != nil {
+			rv := reflect.ValueOf(vals)
+			for i := 0; i < rv.Len(); i++ {
+				if b, ok := rv.Index(i).Interface().([]byte); ok {
+					scribble(b, c.Scrib+i)
+					touched = true
+				}
+			}
+		}
+		for i := range keys {
+			keys[i] = "overwritten-by-the-caller"
+		}
+		if d := diffObs(before, observe(st, qs, ob)); d != "" {
+			return viol("build-aliases-input", "overwriting the caller's keys/values after NewSlimTrie changed an answer: %s", d)
+		}
+		if touched {
+			s.class("caller_value_bytes_overwritten_after_build")
+		}
+		keys = c.keys() // restore for the rest of the check
+	}
+
 	// ---- Unmarshal does not modify or retain the input buffer ----
 	stream, err := streamOf(c)
 	if err != nil {
